@@ -123,7 +123,13 @@ vox_adpcm_init (SF_PRIVATE *psf)
 
 static int
 vox_read_block (SF_PRIVATE *psf, IMA_OKI_ADPCM *pvox, short *ptr, int len)
-{	int	indx = 0, k ;
+{	int	indx = 0, k, count ;
+
+	/* Every code byte holds two samples : hand out the one left over from an odd length request first. */
+	if (pvox->pcm_held && len > 0)
+	{	ptr [indx++] = pvox->held ;
+		pvox->pcm_held = 0 ;
+		} ;
 
 	while (indx < len)
 	{	pvox->code_count = (len - indx > IMA_OKI_ADPCM_PCM_LEN) ? IMA_OKI_ADPCM_CODE_LEN : (len - indx + 1) / 2 ;
@@ -139,8 +145,16 @@ vox_read_block (SF_PRIVATE *psf, IMA_OKI_ADPCM *pvox, short *ptr, int len)
 
 		ima_oki_adpcm_decode_block (pvox) ;
 
-		memcpy (&(ptr [indx]), pvox->pcm, pvox->pcm_count * sizeof (short)) ;
-		indx += pvox->pcm_count ;
+		/* Never store more than was asked for : keep the odd sample for the next call. */
+		count = pvox->pcm_count ;
+		if (count > len - indx)
+		{	count = len - indx ;
+			pvox->held = pvox->pcm [count] ;
+			pvox->pcm_held = 1 ;
+			} ;
+
+		memcpy (&(ptr [indx]), pvox->pcm, count * sizeof (short)) ;
+		indx += count ;
 		} ;
 
 	return indx ;
